@@ -721,11 +721,15 @@ def gen_op(rng: Any, kind: str, data: dict, have_snap: bool, allow_raise: bool =
     if x < 0.90:
         return ["edit", [gen_mut(rng, kind, data, allow_raise) for _ in range(rng.randrange(0, 4))]]
     if x < 0.96:
-        if kind == "dict":
-            return ["mutsnap", gen_key(rng), gen_value(rng, 1)]
-        f = rng.choice([f for f, _ in fields_of(kind_level(kind))] + ["nofield"])
-        return ["mutsnap", f, gen_field_value(rng, f)]
+        return gen_op_mutsnap(rng, kind)
     return ["writeback"]
+
+
+def gen_op_mutsnap(rng: Any, kind: str) -> list:
+    if kind == "dict":
+        return ["mutsnap", gen_key(rng), gen_value(rng, 1)]
+    f = rng.choice([f for f, _ in fields_of(kind_level(kind))] + ["nofield"])
+    return ["mutsnap", f, gen_field_value(rng, f)]
 
 
 KINDS = ["dict", "typed:0", "typed:1", "typed:2"]
